@@ -16,6 +16,7 @@ CLAIMED = {
  "C13": ("seeded simulation of device chains under arbitrary update schedules and skewed issuer clocks: newest-command-wins per update + bounded-progress check over the recorded schedule", "5 C13"),
  "C20": ("seeded simulation of wrappers with inner-getter faults and inner-settable rejections; PID wrapper against a separately driven CommandPID twin", "5 C20"),
  "C15": ("seeded op histories over settables / followers / history adapters with rejected sets, erroring followed getters, clock jumps (both directions) and clock errors, against a small reference model", "5 C15"),
+ "C17": ("(a) seeded clone/drop/to_dyn!/borrow histories over all six variants with a drop tracker, from crates with and without alloc/std features; (b) shuttle-controlled thread schedules (seeded random + PCT) over Arc<Mutex>/Arc<RwLock> References: conservation + register linearizability, replayable schedule files", "5 C17"),
 }
 NOT_APPLICABLE = {
  "C01": "pure function of (unit, unit, operator): no state, seam, clock, fault or order for a simulator to control; deterministic simulation with fault injection does not apply (DESIGN.md section 0)",
@@ -49,16 +50,17 @@ for pid, (tech, ref) in sorted(CLAIMED.items()):
     })
 m = {
  "version": 1,
- "setup_cmd": "cd /verif/sim && CARGO_NET_OFFLINE=true cargo build --release --offline",
+ "setup_cmd": "bash /verif/tools/setup.sh",
  "hooks": {
-   "guard": "--cfg rrtk_verif",
-   "enable": "RUSTFLAGS='--cfg rrtk_verif' via /verif/sim/.cargo/config.toml (applies to rrtk built as a path dependency of the simulator)",
+   "guard": "--cfg rrtk_verif (scratch-slot poisoning) and --cfg rrtk_verif_shuttle (shuttle sync seam)",
+   "enable": "rustflags in /verif/sim/.cargo/config.toml (--cfg rrtk_verif, rrtk as path dependency of the simulator) and /verif/shuttle/.cargo/config.toml (--cfg rrtk_verif_shuttle, rrtk through the shadow manifest /verif/shuttle/rrtk-shadow whose lib path is /repo/src/lib.rs)",
    "baseline_off_cmd": "cd /repo && cargo test --workspace --no-fail-fast --offline",
-   "source_commits": [],
-   "add_only": True,
+   "source_commits": ["9b8f260 (--cfg rrtk_verif: poison MaybeUninit scratch arrays; add-only)", "f78b7c1 (--cfg rrtk_verif_shuttle: Arc/Mutex/RwLock and guards from shuttle::sync; widens 4 existing cfg attributes with not(rrtk_verif_shuttle), otherwise add-only)"],
+   "add_only": False,
  },
  "engines": [
    {"name": "rrtk-sim", "path": "/verif/sim", "serves_properties": sorted(CLAIMED), "kind_free_text": "plan/execute deterministic simulator with seeded fault injection, reference-model and twin/restart oracles, ddmin minimisation, replay files"},
+   {"name": "rrtk-shuttle", "path": "/verif/shuttle", "serves_properties": ["C17"], "kind_free_text": "shuttle (controlled scheduler: seeded random + PCT) scenarios over Reference with persisted, replayable schedules"},
  ],
  "checks": checks,
  "not_applicable": [{"property_id": k, "reason": v} for k, v in sorted({**NOT_APPLICABLE, **PENDING}.items())],
